@@ -128,13 +128,20 @@ def run_dicke(ctx, states, rng):
 def run(ctx):
     quick = ctx.tier == 'quick'
     rng = random.Random(ctx.seed)
-    ctx.rule = ('partial trace: every dimension list of length 2..%d with entries %s and every keep subset (random Gaussian-integer operators; every matrix unit when the total dimension <= 12); '
+    ctx.rule = ('partial trace: every dimension list of length 2..%d with entries %s and every keep subset, plus long lists (5%s parties of dimension 2..3) (random Gaussian-integer operators; every matrix unit when the total dimension <= 12); '
                 'Dicke: every (copies<=%d, dimension<=%d): occupation order, orbits, reduction table in both forms, fast reduction vs explicit embedding in numpy and torch; distinct by configuration'
-                % (3 if quick else 4, '2..3' if quick else '2..4 (total<=64)', 4 if quick else 5, 3 if quick else 4))
+                % (3 if quick else 4, '2..3' if quick else '2..4 (total<=64)', '' if quick else ' and 6', 4 if quick else 5, 3 if quick else 4))
     ctx.assumptions = ['TLC/SANY correct', 'tolerance 1e-9 (1e-8 for the composed reduction)', 'linearity / sesquilinearity of the routines extends agreement on integer inputs to all inputs']
     r = tlc.run('tensor/MC_PartialTrace.tla', 'tensor/MC_PartialTrace_%s.cfg' % ('q' if quick else 't'), dump=True, timeout=3000)
     ctx.add_model('MC_PartialTrace', r)
     sts = list(tlc.parse_dump(r))
+    run_pt(ctx, sts, rng)
+    ctx.traces += len(sts)
+    # long lists of small subsystems (5 and 6 parties): index bookkeeping that only shows with many subsystems
+    r = tlc.run('tensor/MC_PartialTrace.tla', 'tensor/MC_PartialTrace_%s.cfg' % ('longq' if quick else 'long'), dump=True, timeout=3000)
+    ctx.add_model('MC_PartialTrace(long lists)', r)
+    seen = {(tuple(st['cfg']['dims']), tuple(sorted(setof(st['cfg']['keep'])))) for st in sts}
+    sts = [st for st in tlc.parse_dump(r) if (tuple(st['cfg']['dims']), tuple(sorted(setof(st['cfg']['keep'])))) not in seen]
     run_pt(ctx, sts, rng)
     ctx.traces += len(sts)
     r = tlc.run('tensor/MC_Dicke.tla', 'tensor/MC_Dicke_%s.cfg' % ('q' if quick else 't'), dump=True, timeout=3000)
